@@ -910,6 +910,11 @@ func init() {
 	externals["crypto/internal/boring/sig.StandardCrypto"] = func(fr *frame, a []value) value { return nil }
 	externals["crypto/internal/boring/sig.BoringCrypto"] = func(fr *frame, a []value) value { return nil }
 	externals["crypto.RegisterHash"] = func(fr *frame, a []value) value { return nil }
+	// go:linkname'd into net/textproto
+	externals["mime/multipart.readMIMEHeader"] = func(fr *frame, a []value) value {
+		p := fr.i.prog.ImportedPackage("net/textproto")
+		return call(fr.i, fr.caller, token.NoPos, p.Func("readMIMEHeader"), a)
+	}
 	externals["crypto/sha256.block"] = func(fr *frame, a []value) value {
 		p := fr.i.prog.ImportedPackage("crypto/sha256")
 		return call(fr.i, fr.caller, token.NoPos, p.Func("blockGeneric"), a)
